@@ -1,3 +1,451 @@
+import Cutadapt.Proofs.ModsPaired
 import Cutadapt.Stats
+/-! # C16 — `--revcomp` keeps the orientation that matches strictly better
+
+Model: `applyS … (.revcomp c suffix first)` (`ReverseComplementer.__call__`) against `applyS … (.adapters c first)`
+(`AdapterCutter.__call__`), and `applyP … (.pairedRevcomp …)` (`PairedReverseComplementer.__call__`) against the wrapped
+pair of adapter cutters. `originalAfter first info readAfter` is the bookkeeping of `info.original_read` that both stages
+share (the in-place upper-casing of `lowercase` shows in it when the read object *is* the original read).
+All theorems hold for every cutter, read and `ModificationInfo`. -/
 namespace Cutadapt.C16
+open Cutadapt Cutadapt.Adapters
+
+/-! ## The decision -/
+
+theorem useReverse_iff (fms rms : List AnyMatch) :
+    useReverse fms rms = true ↔ (rms ≠ [] ∧ scoreSum rms > scoreSum fms) := by
+  cases rms <;> simp [useReverse]
+
+theorem scoreSum_def (ms : List AnyMatch) : scoreSum ms = (ms.map AnyMatch.score).sum := rfl
+
+/-- how both stages update `info.original_read` -/
+theorem originalAfter_def (first : Bool) (i : Info) (ra : Read) :
+    originalAfter first i ra = if first then { i with original := { i.original with seq := ra.seq } } else i := rfl
+
+/-! ## The stage is total -/
+
+/-- `match_and_trim` can only fail with the `AttributeError` of crop on a linked match -/
+theorem matchAndTrim_error (c : Cutter) (r : Read) (e : Err) (h : matchAndTrim c r = .error e) :
+    e = .attribute ∧ c.action = .crop := by
+  rcases getLast?_cases (rounds c.adapters c.times (searchRead c r) []).2 with hn | ⟨last, hl⟩
+  · rw [matchAndTrim_no_match c r hn] at h; simp at h
+  · rw [matchAndTrim_last c r last hl] at h
+    unfold actionResult at h
+    cases hact : c.action <;> simp only [hact] at h <;> try (simp at h)
+    cases last with
+    | single _ _ => simp at h
+    | linked _ _ _ => simp at h; exact ⟨h.symm, rfl⟩
+
+/-- **The stage raises nothing of its own** (in particular no `AssertionError`): an error is the error of one of the two
+    `match_and_trim` calls, on the read or on its reverse complement -/
+theorem revcomp_total (names : Names) (side : Nat) (c : Cutter) (sfx first : Bool) (r : Read) (i : Info) (e : Err)
+    (h : applyS names side (.revcomp c sfx first) r i = .error e) :
+    (matchAndTrim c r = .error e ∨ matchAndTrim c r.revcomp = .error e) ∧ e ≠ .assertion := by
+  rw [applyS_revcomp] at h
+  have key : matchAndTrim c r = .error e ∨ matchAndTrim c r.revcomp = .error e := by
+    cases hf : matchAndTrim c r with
+    | error e1 => rw [hf] at h; simp at h; left; rw [h]
+    | ok v =>
+      obtain ⟨ft, fms, fa⟩ := v
+      cases hr : matchAndTrim c r.revcomp with
+      | error e2 => rw [hf, hr] at h; simp at h; right; rw [h]
+      | ok w =>
+        obtain ⟨rt, rms, ra⟩ := w
+        rw [hf, hr] at h
+        simp only at h
+        split at h <;> simp at h
+  refine ⟨key, ?_⟩
+  rcases key with k | k <;> rw [(matchAndTrim_error c _ e k).1] <;> simp
+
+/-- and it succeeds whenever both calls succeed -/
+theorem revcomp_succeeds (names : Names) (side : Nat) (c : Cutter) (sfx first : Bool) (r : Read) (i : Info)
+    (ft rt fa ra : Read) (fms rms : List AnyMatch)
+    (hf : matchAndTrim c r = .ok (ft, fms, fa)) (hr : matchAndTrim c r.revcomp = .ok (rt, rms, ra)) :
+    ∃ out, applyS names side (.revcomp c sfx first) r i = .ok out := by
+  rw [applyS_revcomp, hf, hr]
+  simp only
+  split <;> exact ⟨_, rfl⟩
+
+/-! ## Forward orientation kept -/
+
+theorem matchedEvents_def (side : Nat) (ms : List AnyMatch) (rc : Bool) :
+    matchedEvents side ms rc = if ms.isEmpty then [] else Event.withAdapter side :: ms.map (fun m => Event.matched side m rc) := rfl
+
+theorem no_revComp_in_matchedEvents (side : Nat) (ms : List AnyMatch) (rc : Bool) :
+    ∀ ev ∈ matchedEvents side ms rc, ∀ k, (Summary.add k ev).reverseComplemented = k.reverseComplemented := by
+  intro ev hev k
+  unfold matchedEvents at hev
+  split at hev
+  · simp at hev
+  · rcases List.mem_cons.mp hev with e | e
+    · subst e; cases side <;> rfl
+    · obtain ⟨m, _, rfl⟩ := List.mem_map.mp e; rfl
+
+/-- **Unless the reverse complement matches strictly better, the stage returns what plain adapter trimming returns**:
+    same read, same appended matches, same `with_adapters` / `add_match` events (none booked as reverse-complemented);
+    the only difference is `info.is_rc = False` instead of unset -/
+theorem revcomp_keeps_forward (names : Names) (side : Nat) (c : Cutter) (sfx first : Bool) (r : Read) (i : Info)
+    (ft rt fa ra : Read) (fms rms : List AnyMatch)
+    (hf : matchAndTrim c r = .ok (ft, fms, fa)) (hr : matchAndTrim c r.revcomp = .ok (rt, rms, ra))
+    (hno : ¬ (rms ≠ [] ∧ scoreSum rms > scoreSum fms)) :
+    applyS names side (.adapters c first) r i =
+      .ok (ft, { originalAfter first i fa with mts := (originalAfter first i fa).mts ++ fms }, matchedEvents side fms false) ∧
+    applyS names side (.revcomp c sfx first) r i =
+      .ok (ft, { originalAfter first i fa with isRc := some false, mts := (originalAfter first i fa).mts ++ fms },
+           matchedEvents side fms false) := by
+  have hu : useReverse fms rms = false := by
+    cases hb : useReverse fms rms with
+    | false => rfl
+    | true => exact absurd ((useReverse_iff fms rms).mp hb) hno
+  constructor
+  · rw [applyS_adapters, hf]
+  · rw [applyS_revcomp, hf, hr]; simp only [hu]; rfl
+
+/-- in the form "same result as `AdapterCutter`, modulo the flag" -/
+theorem revcomp_keeps_forward' (names : Names) (side : Nat) (c : Cutter) (sfx first : Bool) (r : Read) (i : Info)
+    (ft rt fa ra : Read) (fms rms : List AnyMatch)
+    (hf : matchAndTrim c r = .ok (ft, fms, fa)) (hr : matchAndTrim c r.revcomp = .ok (rt, rms, ra))
+    (hno : ¬ (rms ≠ [] ∧ scoreSum rms > scoreSum fms)) :
+    ∃ r' i' evs, applyS names side (.adapters c first) r i = .ok (r', i', evs) ∧
+      applyS names side (.revcomp c sfx first) r i = .ok (r', { i' with isRc := some false }, evs) ∧
+      (∀ ev ∈ evs, ∀ k, (Summary.add k ev).reverseComplemented = k.reverseComplemented) ∧
+      (∀ ev ∈ evs, ∀ s m rc, ev = Event.matched s m rc → rc = false) := by
+  obtain ⟨h1, h2⟩ := revcomp_keeps_forward names side c sfx first r i ft rt fa ra fms rms hf hr hno
+  refine ⟨_, _, _, h1, h2, no_revComp_in_matchedEvents side fms false, ?_⟩
+  intro ev hev s m rc he
+  subst he
+  unfold matchedEvents at hev
+  split at hev
+  · simp at hev
+  · simp at hev
+    obtain ⟨_, _, _, _, h⟩ := hev
+    exact h
+
+/-- **On equal scores the given orientation is kept** -/
+theorem revcomp_tie_keeps_forward (names : Names) (side : Nat) (c : Cutter) (sfx first : Bool) (r : Read) (i : Info)
+    (ft rt fa ra : Read) (fms rms : List AnyMatch)
+    (hf : matchAndTrim c r = .ok (ft, fms, fa)) (hr : matchAndTrim c r.revcomp = .ok (rt, rms, ra))
+    (htie : scoreSum rms = scoreSum fms) :
+    applyS names side (.revcomp c sfx first) r i =
+      .ok (ft, { originalAfter first i fa with isRc := some false, mts := (originalAfter first i fa).mts ++ fms },
+           matchedEvents side fms false) :=
+  (revcomp_keeps_forward names side c sfx first r i ft rt fa ra fms rms hf hr (by omega)).2
+
+/-- no match on the reverse complement: forward kept whatever the scores (a negative forward total cannot lose to nothing) -/
+theorem revcomp_no_reverse_match_keeps_forward (names : Names) (side : Nat) (c : Cutter) (sfx first : Bool) (r : Read)
+    (i : Info) (ft rt fa ra : Read) (fms : List AnyMatch)
+    (hf : matchAndTrim c r = .ok (ft, fms, fa)) (hr : matchAndTrim c r.revcomp = .ok (rt, [], ra)) :
+    applyS names side (.revcomp c sfx first) r i =
+      .ok (ft, { originalAfter first i fa with isRc := some false, mts := (originalAfter first i fa).mts ++ fms },
+           matchedEvents side fms false) :=
+  (revcomp_keeps_forward names side c sfx first r i ft rt fa ra fms [] hf hr (by simp)).2
+
+/-! ## Reverse complement chosen -/
+
+/-- **A strictly higher total score on the reverse complement selects it**: the result is the trimmed reverse
+    complement (name + `" rc"` iff `suffix`), `info.is_rc = True`, its matches are appended, and the events are
+    `reverse_complemented += 1`, `with_adapters += 1`, and one `add_match` per match booked as reverse-complemented -/
+theorem revcomp_uses_reverse (names : Names) (side : Nat) (c : Cutter) (sfx first : Bool) (r : Read) (i : Info)
+    (ft rt fa ra : Read) (fms rms : List AnyMatch)
+    (hf : matchAndTrim c r = .ok (ft, fms, fa)) (hr : matchAndTrim c r.revcomp = .ok (rt, rms, ra))
+    (hyes : rms ≠ [] ∧ scoreSum rms > scoreSum fms) :
+    applyS names side (.revcomp c sfx first) r i =
+      .ok (if sfx then { rt with name := rt.name ++ bytesOfStr " rc" } else rt,
+           { originalAfter first i fa with isRc := some true, mts := (originalAfter first i fa).mts ++ rms },
+           Event.revComp :: Event.withAdapter side :: rms.map (fun m => Event.matched side m true)) := by
+  have hu : useReverse fms rms = true := (useReverse_iff fms rms).mpr hyes
+  rw [applyS_revcomp, hf, hr]; simp only [hu]; rfl
+
+/-- …and that read is what plain adapter trimming returns on the reverse complement (sequence complemented and reversed,
+    qualities reversed, name kept) -/
+theorem reverse_result_is_adapters_on_revcomp (names : Names) (side : Nat) (c : Cutter) (first : Bool) (r : Read)
+    (j : Info) (rt ra : Read) (rms : List AnyMatch) (hr : matchAndTrim c r.revcomp = .ok (rt, rms, ra)) :
+    applyS names side (.adapters c first) r.revcomp j =
+      .ok (rt, { originalAfter first j ra with mts := (originalAfter first j ra).mts ++ rms }, matchedEvents side rms false) ∧
+    r.revcomp.seq = (r.seq.map Read.complement).reverse ∧ r.revcomp.qual = r.qual.map List.reverse ∧
+    r.revcomp.name = r.name := by
+  refine ⟨by rw [applyS_adapters, hr], rfl, rfl, rfl⟩
+
+theorem rc_suffix_bytes : bytesOfStr " rc" = [32, 114, 99] := by decide +kernel
+
+/-- the decision is a function of the two match lists only: the flag is set iff strictly better -/
+theorem revcomp_flag_iff (names : Names) (side : Nat) (c : Cutter) (sfx first : Bool) (r r' : Read) (i i' : Info)
+    (evs : List Event) (ft rt fa ra : Read) (fms rms : List AnyMatch)
+    (hf : matchAndTrim c r = .ok (ft, fms, fa)) (hr : matchAndTrim c r.revcomp = .ok (rt, rms, ra))
+    (h : applyS names side (.revcomp c sfx first) r i = .ok (r', i', evs)) :
+    (i'.isRc = some true ↔ (rms ≠ [] ∧ scoreSum rms > scoreSum fms)) ∧
+    (i'.isRc = some false ↔ ¬ (rms ≠ [] ∧ scoreSum rms > scoreSum fms)) := by
+  by_cases hyes : rms ≠ [] ∧ scoreSum rms > scoreSum fms
+  · rw [revcomp_uses_reverse names side c sfx first r i ft rt fa ra fms rms hf hr hyes] at h
+    simp only [Except.ok.injEq, Prod.mk.injEq] at h
+    obtain ⟨_, rfl, _⟩ := h
+    simp [hyes]
+  · rw [(revcomp_keeps_forward names side c sfx first r i ft rt fa ra fms rms hf hr hyes).2] at h
+    simp only [Except.ok.injEq, Prod.mk.injEq] at h
+    obtain ⟨_, rfl, _⟩ := h
+    simp [hyes]
+
+/-- **The read is counted as reverse-complemented** exactly in that case: folding the statistics over the emitted
+    events raises `reverse_complemented` by one (and by nothing when the forward orientation is kept) -/
+theorem counted_as_reverse_complemented (side : Nat) (rms : List AnyMatch) (k : Summary) :
+    ((Event.revComp :: Event.withAdapter side :: rms.map (fun m => Event.matched side m true)).foldl Summary.add k).reverseComplemented
+      = k.reverseComplemented + 1 := by
+  have gen : ∀ (evs : List Event) (k : Summary),
+      (∀ ev ∈ evs, ∀ k, (Summary.add k ev).reverseComplemented = k.reverseComplemented) →
+      (evs.foldl Summary.add k).reverseComplemented = k.reverseComplemented := by
+    intro evs
+    induction evs with
+    | nil => intro k _; rfl
+    | cons ev evs ih =>
+      intro k h
+      rw [List.foldl_cons, ih _ (fun e he => h e (List.mem_cons_of_mem _ he)), h ev List.mem_cons_self]
+  rw [List.foldl_cons]
+  rw [gen]
+  · rfl
+  · intro ev hev k'
+    rcases List.mem_cons.mp hev with e | e
+    · subst e; cases side <;> rfl
+    · obtain ⟨m, _, rfl⟩ := List.mem_map.mp e; rfl
+
+theorem forward_not_counted (side : Nat) (fms : List AnyMatch) (k : Summary) :
+    ((matchedEvents side fms false).foldl Summary.add k).reverseComplemented = k.reverseComplemented := by
+  have h := no_revComp_in_matchedEvents side fms false
+  generalize matchedEvents side fms false = evs at h
+  induction evs generalizing k with
+  | nil => rfl
+  | cons ev evs ih =>
+    rw [List.foldl_cons, ih _ (fun e he => h e (List.mem_cons_of_mem _ he)), h ev List.mem_cons_self]
+
+/-! ## `{rc}` and the later stages -/
+
+/-- **`{rc}` under `--rename`** renders as `rc` iff the read was reverse-complemented, and as nothing otherwise -/
+theorem rc_placeholder (names : Names) (read : Read) (info : Info) :
+    renderTok names read info (.var "rc") = .ok (if info.isRc = some true then bytesOfStr "rc" else []) ∧
+    (renderTok names read info (.var "rc") = .ok (bytesOfStr "rc") ↔ info.isRc = some true) := by
+  have h1 : renderTok names read info (.var "rc") = .ok (if info.isRc = some true then bytesOfStr "rc" else []) := by
+    have : renderTok names read info (.var "rc") = .ok (if info.isRc == some true then bytesOfStr "rc" else []) := rfl
+    rw [this]
+    cases hi : info.isRc with
+    | none => rfl
+    | some b => cases b <;> rfl
+  refine ⟨h1, ?_⟩
+  rw [h1]
+  have hne : bytesOfStr "rc" ≠ [] := by decide +kernel
+  by_cases h : info.isRc = some true
+  · simp [h]
+  · simp only [h, if_false, Except.ok.injEq, iff_false]
+    exact fun e => hne e.symm
+
+/-- no modifier other than the reverse-complementing stage touches the flag -/
+theorem later_modifiers_keep_flag (names : Names) (side : Nat) (m : SMod) (hm : m.isRevcomp = false) (r r' : Read)
+    (i i' : Info) (evs : List Event) (h : applyS names side m r i = .ok (r', i', evs)) : i'.isRc = i.isRc := by
+  cases m with
+  | revcomp _ _ _ => simp [SMod.isRevcomp] at hm
+  | adapters c first =>
+    rw [applyS_adapters] at h
+    split at h
+    · simp at h
+    · simp only [Except.ok.injEq, Prod.mk.injEq] at h
+      obtain ⟨_, rfl, _⟩ := h
+      exact originalAfter_isRc _ _ _
+  | cut n =>
+    simp only [applyS] at h
+    split at h
+    · simp only [Except.ok.injEq, Prod.mk.injEq] at h; obtain ⟨_, rfl, _⟩ := h; rfl
+    · split at h
+      · simp only [Except.ok.injEq, Prod.mk.injEq] at h; obtain ⟨_, rfl, _⟩ := h; rfl
+      · simp at h
+  | nextseq _ _ =>
+    simp only [applyS] at h
+    split at h
+    · simp at h
+    · simp only [Except.ok.injEq, Prod.mk.injEq] at h; obtain ⟨_, rfl, _⟩ := h; rfl
+  | qtrim _ _ _ =>
+    simp only [applyS] at h
+    split at h
+    · simp at h
+    · simp only [Except.ok.injEq, Prod.mk.injEq] at h; obtain ⟨_, rfl, _⟩ := h; rfl
+  | polyA _ =>
+    simp only [applyS] at h
+    split at h <;> (simp only [Except.ok.injEq, Prod.mk.injEq] at h; obtain ⟨_, rfl, _⟩ := h; rfl)
+  | shorten _ =>
+    simp only [applyS] at h
+    split at h <;> (simp only [Except.ok.injEq, Prod.mk.injEq] at h; obtain ⟨_, rfl, _⟩ := h; rfl)
+  | trimN =>
+    simp only [applyS, Except.ok.injEq, Prod.mk.injEq] at h; obtain ⟨_, rfl, _⟩ := h; rfl
+  | zeroCap _ =>
+    simp only [applyS, Except.ok.injEq, Prod.mk.injEq] at h; obtain ⟨_, rfl, _⟩ := h; rfl
+  | lengthTag _ | stripSuffix _ | prefixSuffix _ _ | rename _ =>
+    exact (applyS_nameMod names side _ rfl r r' i i' evs h).2.2.1 ▸ rfl
+
+/-- **All later stages use the chosen orientation**: the modifier list is a fold — the read and info a modifier returns
+    are what the remaining modifiers receive -/
+theorem later_stages_use_chosen_orientation (names : Names) (m : SMod) (ms : List SMod) (r : Read) (i : Info)
+    (evs : List Event) :
+    runModsS names (m :: ms) r i evs =
+      match applyS names 0 m r i with
+      | .error e => .error e
+      | .ok (r', i', e') => runModsS names ms r' i' (evs ++ e') := rfl
+
+/-- …and so do the steps (info file, filters, writers): they receive the read and info the modifiers returned -/
+theorem steps_use_chosen_orientation (p : SinglePipeline) (read : Read) :
+    processReadS p read =
+      match runModsS (namesOf p.ads) p.mods read { original := read } [Event.input read.len none] with
+      | .error e => .error e
+      | .ok (r, i, evs) => runStepsS p.ads p.steps 0 r i evs := rfl
+
+/-- once chosen, the flag stays: behind the stage, modifiers without a second reverse-complementer keep `is_rc` -/
+theorem flag_survives_later_modifiers (names : Names) (ms : List SMod) (hms : ∀ m ∈ ms, m.isRevcomp = false)
+    (r r' : Read) (i i' : Info) (evs evs' : List Event) (h : runModsS names ms r i evs = .ok (r', i', evs')) :
+    i'.isRc = i.isRc := by
+  induction ms generalizing r i evs with
+  | nil => simp only [runModsS, Except.ok.injEq, Prod.mk.injEq] at h; obtain ⟨_, rfl, _⟩ := h; rfl
+  | cons m ms ih =>
+    simp only [runModsS] at h
+    split at h
+    · simp at h
+    · rename_i r1 i1 e1 h1
+      rw [ih (fun x hx => hms x (List.mem_cons_of_mem _ hx)) r1 i1 _ h]
+      exact later_modifiers_keep_flag names 0 m (hms m List.mem_cons_self) r r1 i i1 e1 h1
+
+/-! ## Paired-end: the swapped pair -/
+
+theorem pairUseRc_iff (m1 m2 m1s m2s : List AnyMatch) :
+    pairUseRc m1 m2 m1s m2s = true ↔
+      ((m1s ≠ [] ∨ m2s ≠ []) ∧ scoreSum m1s + scoreSum m2s > scoreSum m1 + scoreSum m2) := by
+  cases m1s <;> cases m2s <;> simp [pairUseRc]
+
+theorem pairLower_def (c1 c2 : Option Cutter) :
+    pairLower c1 c2 = ((c1.map (·.action == .lowercase)).getD false || (c2.map (·.action == .lowercase)).getD false) := rfl
+theorem upperIf_def (b : Bool) (r : Read) : upperIf b r = if b then { r with seq := upperBytes r.seq } else r := rfl
+theorem cutterOpt_def (c : Option Cutter) (r : Read) :
+    cutterOpt c r = match c with | some c => matchAndTrim c r | none => .ok (r, [], r) := by
+  cases c <;> rfl
+
+/-- `PairedReverseComplementer` raises nothing of its own either (the `AttributeError` of a missing cutter is dead code:
+    a missing cutter reports no match) -/
+theorem paired_revcomp_total (ads1 ads2 : List Matchable) (c1 c2 : Option Cutter) (sfx f1 f2 : Bool)
+    (r1 r2 : Read) (i1 i2 : Info) (e : Err)
+    (h : applyP ads1 ads2 (.pairedRevcomp c1 c2 sfx f1 f2) (r1, r2) (i1, i2) = .error e) :
+    cutterOpt c1 (upperIf (pairLower c1 c2) r1) = .error e ∨ cutterOpt c2 (upperIf (pairLower c1 c2) r2) = .error e ∨
+    cutterOpt c1 (upperIf (pairLower c1 c2) r2) = .error e ∨ cutterOpt c2 (upperIf (pairLower c1 c2) r1) = .error e := by
+  rw [applyP_pairedRevcomp] at h
+  exact pairedRevcompCore_error _ _ _ _ _ _ _ _ _ e h
+
+/-- the adapter cutters wrapped as `PairedModifierWrapper`, as built without `--revcomp` -/
+abbrev plainPair (c1 c2 : Option Cutter) (f1 f2 : Bool) : PMod :=
+  .wrap (c1.map (fun c => SMod.adapters c f1)) (c2.map (fun c => SMod.adapters c f2))
+
+theorem plainPair_result (ads1 ads2 : List Matchable) (c1 c2 : Option Cutter) (f1 f2 : Bool) (r1 r2 : Read)
+    (i1 i2 : Info) (t1 t2 x1 x2 : Read) (m1 m2 : List AnyMatch)
+    (h1 : cutterOpt c1 r1 = .ok (t1, m1, x1)) (h2 : cutterOpt c2 r2 = .ok (t2, m2, x2)) :
+    ∃ j1 j2, applyP ads1 ads2 (plainPair c1 c2 f1 f2) (r1, r2) (i1, i2) =
+        .ok ((t1, t2), (j1, j2), matchedEvents 0 m1 false ++ matchedEvents 1 m2 false) ∧
+      j1.mts = i1.mts ++ m1 ∧ j2.mts = i2.mts ++ m2 ∧ j1.isRc = i1.isRc ∧ j2.isRc = i2.isRc := by
+  have side : ∀ (names : Names) (sd : Nat) (c : Option Cutter) (f : Bool) (r : Read) (i : Info) (t x : Read)
+      (m : List AnyMatch), cutterOpt c r = .ok (t, m, x) →
+      ∃ j, applySOpt names sd (c.map (fun c => SMod.adapters c f)) r i = .ok (t, j, matchedEvents sd m false) ∧
+        j.mts = i.mts ++ m ∧ j.isRc = i.isRc := by
+    intro names sd c f r i t x m h
+    cases c with
+    | none =>
+      obtain ⟨rfl, rfl, _⟩ := cutterOpt_none_matches r t x m h
+      exact ⟨i, rfl, by simp, rfl⟩
+    | some c =>
+      have h' : matchAndTrim c r = .ok (t, m, x) := h
+      refine ⟨{ originalAfter f i x with mts := (originalAfter f i x).mts ++ m }, ?_, ?_, ?_⟩
+      · simp only [applySOpt, Option.map_some]; rw [applyS_adapters, h']
+      · simp [originalAfter_mts]
+      · simp [originalAfter_isRc]
+  obtain ⟨j1, a1, a2, a3⟩ := side (namesOf ads1) 0 c1 f1 r1 i1 t1 x1 m1 h1
+  obtain ⟨j2, b1, b2, b3⟩ := side (namesOf ads2) 1 c2 f2 r2 i2 t2 x2 m2 h2
+  refine ⟨j1, j2, ?_, a2, b2, a3, b3⟩
+  unfold plainPair
+  rw [applyP_wrap, a1, b1]
+
+/-- **Paired: unless the swapped pair matches strictly better, the pair is returned as without `--revcomp`** (R1's
+    cutter on R1, R2's on R2): same reads, same appended matches, same events, `is_rc = False` on both infos -/
+theorem paired_revcomp_keeps_unswapped (ads1 ads2 : List Matchable) (c1 c2 : Option Cutter) (sfx f1 f2 : Bool)
+    (r1 r2 : Read) (i1 i2 : Info) (t1 t2 t1s t2s x1 x2 x3 x4 : Read) (m1 m2 m1s m2s : List AnyMatch)
+    (h1 : cutterOpt c1 (upperIf (pairLower c1 c2) r1) = .ok (t1, m1, x1))
+    (h2 : cutterOpt c2 (upperIf (pairLower c1 c2) r2) = .ok (t2, m2, x2))
+    (h3 : cutterOpt c1 (upperIf (pairLower c1 c2) r2) = .ok (t1s, m1s, x3))
+    (h4 : cutterOpt c2 (upperIf (pairLower c1 c2) r1) = .ok (t2s, m2s, x4))
+    (hno : ¬ ((m1s ≠ [] ∨ m2s ≠ []) ∧ scoreSum m1s + scoreSum m2s > scoreSum m1 + scoreSum m2)) :
+    (∃ j1 j2, applyP ads1 ads2 (.pairedRevcomp c1 c2 sfx f1 f2) (r1, r2) (i1, i2) =
+        .ok ((t1, t2), (j1, j2), matchedEvents 0 m1 false ++ matchedEvents 1 m2 false) ∧
+      j1.mts = i1.mts ++ m1 ∧ j2.mts = i2.mts ++ m2 ∧ j1.isRc = some false ∧ j2.isRc = some false) ∧
+    (∃ j1 j2, applyP ads1 ads2 (plainPair c1 c2 f1 f2) (upperIf (pairLower c1 c2) r1, upperIf (pairLower c1 c2) r2) (i1, i2) =
+        .ok ((t1, t2), (j1, j2), matchedEvents 0 m1 false ++ matchedEvents 1 m2 false) ∧
+      j1.mts = i1.mts ++ m1 ∧ j2.mts = i2.mts ++ m2 ∧ j1.isRc = i1.isRc ∧ j2.isRc = i2.isRc) := by
+  have hu : pairUseRc m1 m2 m1s m2s = false := by
+    cases hb : pairUseRc m1 m2 m1s m2s with
+    | false => rfl
+    | true => exact absurd ((pairUseRc_iff m1 m2 m1s m2s).mp hb) hno
+  constructor
+  · rw [applyP_pairedRevcomp, pairedRevcompCore_ok c1 c2 sfx f1 f2 _ _ i1 i2 _ _ _ _ _ _ _ _ _ _ _ _ h1 h2 h3 h4, hu]
+    exact ⟨_, _, rfl, by simp [originalAfter_mts], by simp [originalAfter_mts], rfl, rfl⟩
+  · exact plainPair_result ads1 ads2 c1 c2 f1 f2 _ _ i1 i2 t1 t2 x1 x2 m1 m2 h1 h2
+
+/-- **Paired: a strictly higher total on the swapped pair selects it**: R1's cutter applied to R2 gives the new first
+    mate, R2's cutter applied to R1 the new second mate; both names get `" rc"` (iff `suffix`), both infos get
+    `is_rc = True` and the swapped matches; one `reverse_complemented` event, then the matches booked as reverse-complemented -/
+theorem paired_revcomp_uses_swapped (ads1 ads2 : List Matchable) (c1 c2 : Option Cutter) (sfx f1 f2 : Bool)
+    (r1 r2 : Read) (i1 i2 : Info) (t1 t2 t1s t2s x1 x2 x3 x4 : Read) (m1 m2 m1s m2s : List AnyMatch)
+    (h1 : cutterOpt c1 (upperIf (pairLower c1 c2) r1) = .ok (t1, m1, x1))
+    (h2 : cutterOpt c2 (upperIf (pairLower c1 c2) r2) = .ok (t2, m2, x2))
+    (h3 : cutterOpt c1 (upperIf (pairLower c1 c2) r2) = .ok (t1s, m1s, x3))
+    (h4 : cutterOpt c2 (upperIf (pairLower c1 c2) r1) = .ok (t2s, m2s, x4))
+    (hyes : (m1s ≠ [] ∨ m2s ≠ []) ∧ scoreSum m1s + scoreSum m2s > scoreSum m1 + scoreSum m2) :
+    ∃ j1 j2, applyP ads1 ads2 (.pairedRevcomp c1 c2 sfx f1 f2) (r1, r2) (i1, i2) =
+        .ok ((if sfx then { t1s with name := t1s.name ++ bytesOfStr " rc" } else t1s,
+              if sfx then { t2s with name := t2s.name ++ bytesOfStr " rc" } else t2s), (j1, j2),
+             Event.revComp :: (matchedEvents 0 m1s true ++ matchedEvents 1 m2s true)) ∧
+      j1.mts = i1.mts ++ m1s ∧ j2.mts = i2.mts ++ m2s ∧ j1.isRc = some true ∧ j2.isRc = some true := by
+  have hu : pairUseRc m1 m2 m1s m2s = true := (pairUseRc_iff m1 m2 m1s m2s).mpr hyes
+  rw [applyP_pairedRevcomp, pairedRevcompCore_ok c1 c2 sfx f1 f2 _ _ i1 i2 _ _ _ _ _ _ _ _ _ _ _ _ h1 h2 h3 h4, hu]
+  exact ⟨_, _, rfl, by simp [originalAfter_mts], by simp [originalAfter_mts], rfl, rfl⟩
+
+/-! ## Concrete runs (non-vacuity) -/
+
+/-- `-a GATTACAG` -/
+def exAdapter : Adapter :=
+  { ty := .back, seq := [71,65,84,84,65,67,65,71], thr := fun L => L / 10, minOverlap := 3,
+    readWildcards := false, adapterWildcards := false, indels := true, name := "g" }
+/-- `-a ACGTACGT`, its own reverse complement -/
+def exPalindrome : Adapter :=
+  { ty := .back, seq := [65,67,71,84,65,67,71,84], thr := fun L => L / 10, minOverlap := 3,
+    readWildcards := false, adapterWildcards := false, indels := true, name := "p" }
+/-- `TTTTCCCCGATTACAGGG` with qualities 40, 41, … -/
+def exForward : Read :=
+  ⟨[114], [84,84,84,84,67,67,67,67, 71,65,84,84,65,67,65,71, 71,71], some ((List.range 18).map (fun i => (40 + i).toUInt8))⟩
+
+/-- the adapter only occurs on the reverse complement of the read given: that orientation is returned, trimmed, with
+    reversed qualities, `" rc"` appended, the flag set, and three events (`revComp`, `withAdapter`, one match) -/
+example : (match applyS ["g"] 0 (.revcomp ⟨[.single exAdapter], 1, .trim⟩ true true) exForward.revcomp
+      { original := exForward.revcomp } with
+    | .ok (r, i, evs) => (r.name, r.seq, r.qual, i.isRc, i.mts.length, evs.length) ==
+        ([114, 32, 114, 99], [84,84,84,84,67,67,67,67], some [40,41,42,43,44,45,46,47], some true, 1, 3)
+    | .error _ => false) = true := by decide +kernel
+
+/-- the adapter occurs in the read as given: forward kept, no suffix, flag `False`, two events -/
+example : (match applyS ["g"] 0 (.revcomp ⟨[.single exAdapter], 1, .trim⟩ true true) exForward { original := exForward } with
+    | .ok (r, i, evs) => (r.name, r.seq, i.isRc, evs.length) == ([114], [84,84,84,84,67,67,67,67], some false, 2)
+    | .error _ => false) = true := by decide +kernel
+
+/-- a tie (the palindromic adapter matches both orientations of `CCACGTACGTGGGGAAAA` with score 8): forward kept -/
+example : (match applyS ["p"] 0 (.revcomp ⟨[.single exPalindrome], 1, .trim⟩ true true)
+      ⟨[114], [67,67, 65,67,71,84,65,67,71,84, 71,71,71,71,65,65,65,65], none⟩
+      { original := ⟨[114], [67,67, 65,67,71,84,65,67,71,84, 71,71,71,71,65,65,65,65], none⟩ } with
+    | .ok (r, i, _) => (r.name, r.seq, i.isRc, i.mts.map AnyMatch.score) == ([114], [67,67], some false, [8])
+    | .error _ => false) = true := by decide +kernel
+
+/-- paired: R1's adapter is found on R2 only — the swapped pair is chosen, R2 (trimmed by R1's cutter) becomes the first mate -/
+example : (match applyP [.single exAdapter] [] (.pairedRevcomp (some ⟨[.single exAdapter], 1, .trim⟩) none true true true)
+      (⟨[97], [65,65,65,65,67,67,67,67], none⟩, exForward)
+      ({ original := ⟨[97], [65,65,65,65,67,67,67,67], none⟩ }, { original := exForward }) with
+    | .ok ((o1, o2), (j1, j2), evs) => (o1.name, o1.seq, o2.name, o2.seq, j1.isRc, j2.isRc, evs.length) ==
+        ([114, 32, 114, 99], [84,84,84,84,67,67,67,67], [97, 32, 114, 99], [65,65,65,65,67,67,67,67], some true, some true, 3)
+    | .error _ => false) = true := by decide +kernel
+
 end Cutadapt.C16
